@@ -297,7 +297,11 @@ def runtime_bind(formals: list[list[Any]], actuals: list[list[Any]]) -> dict[str
 
 
 def call_batch(text: str, linenos: list[int], flags: list[str]) -> dict[str, Any]:
-    """Check one generated module (one call per line) with the real mypy, then really perform every call."""
+    """Check one generated module (prelude, then one call per line) with the real mypy, then really perform every call.
+
+    An internal error hides every later diagnostic. mypy dumps the diagnostics collected so far when it fails, so the
+    failing line is recorded, the lines before it keep the diagnostics of that run, and the lines after it are checked
+    again in a new module (same prelude)."""
     _install_cac_hook()
     before = len(_kind_cells)
     try:
@@ -305,34 +309,45 @@ def call_batch(text: str, linenos: list[int], flags: list[str]) -> dict[str, Any
     except SyntaxError as e:
         return {"harness": f"generated module does not compile: {e}"}
     lines = text.splitlines()
-    crashed: dict[int, dict[str, Any]] = {}
-    fail = None
-    for _attempt in range(40):
-        r = basic.check_typeshed({"m.py": "\n".join(lines) + "\n"}, ["--show-traceback", *flags], ["m.py"])
-        if not (r.get("crash") or r.get("internal") or r.get("status") not in (0, 1)):
-            break
-        # an internal error hides every later diagnostic: attribute it to its line, blank the line, re-run
-        m = re.search(r"^m\.py:(\d+): error: INTERNAL ERROR", (r.get("err") or "") + "\n" + (r.get("out") or ""), re.M)
-        i0 = (r.get("internal") or [{}])[0]
-        if m and int(m.group(1)) in linenos and int(m.group(1)) not in crashed:
-            ln = int(m.group(1))
-            crashed[ln] = {"exc": i0.get("exc"), "func": i0.get("func"), "file": i0.get("file"), "msg": i0.get("msg"),
-                           "tb": i0.get("tb"), "src": lines[ln - 1]}
-            lines[ln - 1] = "pass"
-            continue
-        fail = {"status": r.get("status"), "crash": (r.get("crash") or {}).get("key"),
-                "internal": i0.get("exc"), "err": (r.get("err") or "")[-400:]}
-        break
-    else:
-        fail = {"status": r.get("status"), "internal": "too many internal errors in one batch"}
-    per_line = _by_line(r.get("out", "").splitlines(), "m.py")
-    lines = text.splitlines()
     first = min(linenos) if linenos else len(lines) + 1
+    if linenos != list(range(first, first + len(linenos))) or first + len(linenos) != len(lines) + 1:
+        return {"harness": "call lines must be the contiguous tail of the module"}
+    prelude = lines[: first - 1]
+    remaining = list(range(len(linenos)))
+    diags: dict[int, list[list[str]]] = {}
+    crashed: dict[int, dict[str, Any]] = {}
+    stray: dict[int, Any] = {}
+    fail = None
+    runs = 0
+    while remaining:
+        runs += 1
+        cur = prelude + [lines[linenos[i] - 1] for i in remaining]
+        r = basic.check_typeshed({"m.py": "\n".join(cur) + "\n"}, ["--show-traceback", *flags], ["m.py"])
+        per_line = _by_line((r.get("out") or "").splitlines(), "m.py")
+        stray.update({ln: v for ln, v in per_line.items() if ln < first})
+        if not (r.get("crash") or r.get("internal") or r.get("status") not in (0, 1)):
+            for j, i in enumerate(remaining):
+                diags[i] = per_line.get(first + j, [])
+            break
+        i0 = (r.get("internal") or [{}])[0]
+        ln = i0.get("src_line")
+        if not isinstance(ln, int):
+            m = re.search(r"^m\.py:(\d+): error: INTERNAL ERROR", (r.get("err") or "") + "\n" + (r.get("out") or ""), re.M)
+            ln = int(m.group(1)) if m else None
+        if ln is None or not (first <= ln < first + len(remaining)):
+            fail = {"status": r.get("status"), "crash": (r.get("crash") or {}).get("key"), "internal": i0.get("exc"),
+                    "err": (r.get("err") or "")[-400:], "unjudged": len(remaining)}
+            break
+        k = ln - first
+        for j in range(k):
+            diags[remaining[j]] = per_line.get(first + j, [])
+        crashed[remaining[k]] = {"exc": i0.get("exc"), "func": i0.get("func"), "file": i0.get("file"), "msg": i0.get("msg"),
+                                 "tb": i0.get("tb"), "src": cur[ln - 1]}
+        remaining = remaining[k + 1:]
     ns: dict[str, Any] = {"__name__": "m"}
-    exec(compile("\n".join(lines[: first - 1]) + "\n", "m.py", "exec"), ns)
-    stray = {ln: v for ln, v in per_line.items() if ln < first}
+    exec(compile("\n".join(prelude) + "\n", "m.py", "exec"), ns)
     out = []
-    for ln in linenos:
+    for i, ln in enumerate(linenos):
         src = lines[ln - 1]
         try:
             eval(compile(src, "m.py", "eval"), ns)
@@ -341,8 +356,13 @@ def call_batch(text: str, linenos: list[int], flags: list[str]) -> dict[str, Any
             rt = str(e)
         except Exception as e:  # cannot happen with `...` bodies; reported as harness trouble
             rt = f"!{type(e).__name__}: {e}"
-        out.append({"mypy": per_line.get(ln, []), "rt": rt, **({"crash": crashed[ln]} if ln in crashed else {})})
-    return {"cases": out, "fail": fail, "stray": stray, "new_kind_cells": len(_kind_cells) - before,
+        rec: dict[str, Any] = {"mypy": diags.get(i, []), "rt": rt}
+        if i in crashed:
+            rec["crash"] = crashed[i]
+        elif i not in diags:
+            rec["unjudged"] = True
+        out.append(rec)
+    return {"cases": out, "fail": fail, "stray": stray, "runs": runs, "new_kind_cells": len(_kind_cells) - before,
             "kind_cells": sorted(_kind_cells) if len(_kind_cells) != before else None}
 
 
@@ -742,6 +762,44 @@ def _eval_span(lines: list[str], rec: dict[str, Any], ns: dict[str, Any]) -> Any
         return {"src": src, "val": "!" + type(e).__name__}
 
 
+def _fold_prepass(lines: list[str], first: int, n: int, flags: list[str]) -> dict[int, dict[str, Any]]:
+    """Find the lines on which the real constant_fold_expr raises by calling it directly on the rvalues (parsed by mypy's
+    own parser). One representative per (exception, function) is confirmed through a one-line real build; an internal
+    error in a build hides the rest of a module, and re-running a module once per failing line is too slow."""
+    from mypy import constant_fold as CF
+    from mypy.errors import Errors
+    from mypy.nodes import AssignmentStmt
+    from mypy.options import Options
+    from mypy.parse import parse
+
+    popts = Options()
+    parsed = parse(("\n".join(lines) + "\n").encode(), "m.py", "m", Errors(popts), popts)
+    tree = parsed[0] if isinstance(parsed, tuple) else parsed
+    crashed: dict[int, dict[str, Any]] = {}
+    confirmed: dict[tuple[Any, Any], bool] = {}
+    for st in tree.defs:
+        if not isinstance(st, AssignmentStmt) or not (first <= st.line < first + n):
+            continue
+        try:
+            CF.constant_fold_expr(st.rvalue, "m")
+        except BaseException as e:
+            tb = traceback.extract_tb(e.__traceback__)
+            inner = next((fr for fr in reversed(tb) if "/mypy/" in fr.filename or "/mypyc/" in fr.filename), None)
+            i = st.line - first
+            rec = {"kind": "internal", "exc": type(e).__name__, "func": inner.name if inner else None,
+                   "file": os.path.basename(inner.filename) if inner else None, "msg": str(e)[:200],
+                   "tb": "".join(traceback.format_tb(e.__traceback__)[-4:])[-1500:], "found_by": "direct call"}
+            mech = (rec["exc"], rec["func"])
+            if mech not in confirmed:
+                b = _build({"m.py": lines[0] + "\n" + "\n".join(lines[1: first - 1]) + "\n" + lines[st.line - 1] + "\n"},
+                           flags, ["m.py"])
+                f = _failure(b)
+                confirmed[mech] = bool(f and f.get("kind") == "internal" and f.get("exc") == rec["exc"])
+            rec["confirmed_by_real_build"] = confirmed[mech]
+            crashed[i] = rec
+    return crashed
+
+
 def fold_batch(exprs: list[str], flags: list[str], mypyc: bool = False, decls: list[str] | None = None) -> dict[str, Any]:
     """`X<i>: Final = <expr>` per line. Static: every outermost constant_fold_expr result recorded during the real
     build (+ Var.final_value from the tree); runtime: exec/eval of the same text. With mypyc=True the error-free lines are
@@ -758,8 +816,10 @@ def fold_batch(exprs: list[str], flags: list[str], mypyc: bool = False, decls: l
     except (SyntaxError, ValueError, OverflowError, MemoryError) as e:
         return {"harness": f"generated module does not compile: {type(e).__name__}: {e}"}
     rt, ns = _runtime_lines(lines, first)
-    crashed: dict[int, dict[str, Any]] = {}
+    crashed: dict[int, dict[str, Any]] = _fold_prepass(lines, first, len(exprs), flags)
     cur = list(lines)
+    for i in crashed:
+        cur[first - 1 + i] = f"X{i}: Final = None"
     for _attempt in range(60):
         _fold_sink = []
         try:
